@@ -43,6 +43,9 @@ ENTS = [
     ("pinner", "proc", "public", True, "prog"), ("pvar", "var", "public", True, "prog"),
     ("evar", "var", "public", True, "ext"),
     ("mplocal", "var", "private", True, "smp"), ("mpinner", "proc", "private", True, "smp"),
+    # what a procedure declares besides variables and types: a namelist group in the private procedure, an enumeration in spub
+    # (a common block declared in spub is global storage, documented with every unit that names it whatever proc_internals says: see `lcommon` below)
+    ("nlpriv", "namelist", "public", True, "spriv"), ("lenum", "enumerator", "public", True, "spub"), ("lcommon", "common", "public", True, "spub-common"),
 ]
 HAS_PAGE = {"type": "type", "proc": "proc", "absint": "interface", "generic": "interface"}
 
@@ -77,8 +80,9 @@ def source(meta):
           "  interface gpriv"] + doc("gpriv", "    ") + ["    module procedure gsp_priv_impl", "  end interface gpriv",
           "contains",
           "  subroutine spub(a)"] + m("spub", "    ") + doc("spub", "    ") + ["    integer :: a", "    !! TRCargax", "    integer :: lvar"] + doc("lvar", "    ") + [
+          "    enum, bind(c)", "      !! the enumeration itself is documented too", "      enumerator :: lenum = 1"] + doc("lenum", "      ") + ["    end enum", "    integer :: lcv", "    common /lcommon/ lcv"] + doc("lcommon", "    ") + [
           "    type ltype"] + doc("ltype", "      ") + ["      integer :: lc", "    end type ltype", "    call inner()", "    call spriv()", "    a = fpub()", "  contains", "    subroutine inner()"] + doc("inner", "      ") + ["    end subroutine inner", "  end subroutine spub",
-          "  subroutine spriv()"] + doc("spriv", "    ") + ["  end subroutine spriv",
+          "  subroutine spriv()"] + doc("spriv", "    ") + ["    integer :: nlv", "    namelist /nlpriv/ nlv"] + doc("nlpriv", "    ") + ["  end subroutine spriv",
           "  subroutine uspub()", "  end subroutine uspub",
           "  integer function fpub()"] + doc("fpub", "    ") + ["    fpub = 1", "  end function fpub",
           "  subroutine gsp_pub_impl(x)", "    !! TRCgspecpubx", "    !!", "    !! second paragraph", "    integer :: x", "  end subroutine gsp_pub_impl",
@@ -133,6 +137,10 @@ def expected_selection(display, proc_internals, hide_undoc, overrides):
             sel[name] = sel.get("tpriv", False) and shown(e, d_lib)
         elif parent == "spub":
             sel[name] = sel.get("spub", False) and bool(pi_spub) and shown(e, d_spub)
+        elif parent == "spriv":
+            sel[name] = sel.get("spriv", False)  # nothing of an unselected procedure is documented
+        elif parent == "spub-common":
+            sel[name] = sel.get("spub", False) and not (hide_undoc and not documented)
         elif parent == "lib2":
             sel[name] = shown(e, d_file)
         elif parent == "prog":
